@@ -29,7 +29,7 @@ def gen_cases(tier, seed):
     # additions
     for i in range(300 if q else 6000):
         a, b = rng.randrange(1, N), rng.randrange(1, N)
-        rel = ["rand", "same", "neg", "inf_l", "inf_r", "inf_both", "double_of", "small"][i % 8]
+        rel = ["rand", "same", "neg", "inf_l", "inf_r", "inf_both", "double_of", "small", "same_object", "same_y", "same_y_other", "same_y_neg"][i % 12]
         yield "add", {"a": hex(a), "b": hex(b), "rel": rel}
     for i in range(100 if q else 1500):
         yield "identities", {"a": hex(rng.getrandbits(rng.choice([8, 64, 256]))), "b": hex(rng.getrandbits(rng.choice([8, 64, 256]))),
@@ -63,7 +63,7 @@ def gen_cases(tier, seed):
 
 
 def required(tier):
-    return {"scalar.decided": 40, "add.decided": 30, "add.rel.neg": 3, "add.rel.same": 3, "identities.decided": 20,
+    return {"scalar.decided": 40, "add.decided": 30, "add.rel.neg": 3, "add.rel.same": 3, "add.rel.same_y": 3, "add.rel.same_object": 3, "identities.decided": 20,
             "pubkey.decided": 30, "privkey.refused": 150, "privkey.refused_after_valid_use": 100, "keygen.decided": 10, "keygen.draw0": 1,
             "small.pairs": 5000, "small.scalars": 5000, "small.assoc": 20000,
             "contract:point_add.closed": 10000, "contract:point_scalar_mul.closed": 1000}
@@ -102,7 +102,18 @@ def run_case(kind, params, ctx):
         A = secp.pub(a)
         B = secp.pub(b)
         if rel == "same":
+            B = tuple(list(A))       # equal value, DIFFERENT tuple object
+        elif rel == "same_object":
             B = A
+        elif rel in ("same_y", "same_y_other", "same_y_neg"):
+            # the endomorphism image (beta*x, y): a different point with the same ordinate (common.keys_endo)
+            from .common import LAMBDA
+            B = secp.SECP.mul(LAMBDA if rel != "same_y_other" else LAMBDA * LAMBDA % N, A)
+            if B[1] != A[1] or B[0] == A[0]:
+                ctx.oracle_error("endomorphism image does not share y")
+                return
+            if rel == "same_y_neg":
+                B = S.neg(B)
         elif rel == "neg":
             B = S.neg(A)
         elif rel == "inf_l":
